@@ -135,7 +135,13 @@ def _penv_for(n, penv):
 
 def tolerances(E, penv):
     s = scale_of(E, penv)
-    return {"scale": s, "tol_in": 2e-5 * s, "tol_b": 1e-4 * s}
+    tb = 1e-4 * s
+    for n in rg.walk(E):
+        if n["t"] == "mesh" and n.get("tol"):
+            # a polyhedron built with its own boundary tolerance: by the user's declaration points closer to
+            # a face than that are on its boundary, so "on the boundary" cannot be judged more finely
+            tb = max(tb, 1.5 * float(n["tol"]))
+    return {"scale": s, "tol_in": 2e-5 * s, "tol_b": tb}
 
 
 def split_env(D, env):
